@@ -135,15 +135,33 @@ def _helper_shape(fn):
     if not body:
         return None
     has_ret = isinstance(body[-1], ast.Return) and body[-1].value is not None
+    tail_candidate = False
     for n in ast.walk(fn):
         if isinstance(n, (ast.Yield, ast.YieldFrom, ast.Await, ast.Global, ast.Nonlocal, ast.FunctionDef, ast.AsyncFunctionDef, ast.Lambda)) and n is not fn:
             return None
         if isinstance(n, ast.Return) and not (has_ret and n is body[-1]):
-            return None
+            tail_candidate = True
         if isinstance(n, ast.Call) and isinstance(n.func, ast.Name) and n.func.id == fn.name:
             return None
     params = [a.arg for a in fn.args.args]
     stored = {n.id for n in ast.walk(fn) if isinstance(n, ast.Name) and isinstance(n.ctx, ast.Store) and n.id in params}
+    if tail_candidate:
+        # several returns: inlinable where the call is itself returned (`return helper(...)`), provided every path of the helper ends in a
+        # return with a value or a raise (its returns then become the caller's returns)
+        def _all_return(stmts):
+            if not stmts:
+                return False
+            last = stmts[-1]
+            if isinstance(last, ast.Return):
+                return last.value is not None
+            if isinstance(last, ast.Raise):
+                return True
+            if isinstance(last, ast.If):
+                return _all_return(last.body) and _all_return(last.orelse)
+            return False
+        if not _all_return(body) or any(isinstance(n, ast.Return) and n.value is None for n in ast.walk(fn)):
+            return None
+        return ("tail", body, None, stored)
     if not has_ret:
         return ("proc", body, None, stored)
     return ("expr" if len(body) == 1 else "stmts", body[:-1], body[-1].value, stored)
@@ -288,6 +306,12 @@ def inline_helpers(tree, relpath):
                             if kind == "expr":
                                 plan.append(("expr", block, i, st, c, m))
                             else:
+                                if kind == "tail":
+                                    if not (isinstance(st, ast.Return) and st.value is c and all(_simple(a_) for a_ in m.values())):
+                                        ok = False
+                                        continue
+                                    plan.append((kind, block, i, st, c, m))
+                                    continue
                                 direct = (isinstance(st, (ast.Assign, ast.Return, ast.Expr)) and st.value is c) or (
                                     kind == "stmts" and isinstance(st, ast.If) and st.test is c and not any(
                                         isinstance(p_, ast.If) and p_.orelse == [st] for p_ in ast.walk(host)))
